@@ -187,7 +187,7 @@ def run_case(case):
                     shutil.rmtree(d, ignore_errors=True)
         # ---- one more run in which a few chunks are submitted a second time with the very
         # same bytes (a caller's retry).  The writer may accept or refuse each of them; either
-        # way the dataset must close and hold exactly the same shard files.
+        # way the dataset must close and every stored chunk must be fetched unchanged.
         if case["sseed"] % 3 == 0 and not v and len(orders[0]) >= 2:
             r3 = random.Random(case["oseed"] + 1)
             strategy = r3.choice(("on disk", "in memory"))
@@ -213,9 +213,19 @@ def run_case(case):
                                 "resubmissions_refused", 0) + 1
                 acc.close()
                 obs["writer_runs_with_resubmissions"] = int(again > 0)
-                dg, _names = shardlib.tree_digest(os.path.join(d, "s0"), ".shard")
-                digests.setdefault(dg, []).append(
-                    (strategy + " +resubmissions", [list(p) for p in order[:10]]))
+                # a history with a repeated chunk is not one of the "write orders of a chunk
+                # set" whose files must be byte-identical; what the statement demands of ANY
+                # history is that every stored chunk is fetched with the bytes stored for it
+                acc3 = accessor_mod.get_accessor_for_url(d)
+                for coords, payload in (stored_ref or {}).items():
+                    obs["fetch_checks"] += 1
+                    got = acc3.fetch_chunk("s0", coords)
+                    if bytes(got) != payload:
+                        v.append({"kind": "fetched-bytes-differ-from-stored",
+                                  "detail": f"{ctx} strategy={strategy} with re-submitted "
+                                  f"chunks: coords {coords}: got {len(got)} bytes, stored "
+                                  f"{len(payload)} bytes"})
+                        break
             except Exception as exc:  # noqa: BLE001
                 v.append({"kind": "writer-raised-after-a-resubmitted-chunk",
                           "detail": f"{ctx} strategy={strategy} order="
